@@ -287,6 +287,8 @@ func buildViews(p Plan) ([]kvstore.KVStore, kvstore.KVStore) {
 	return out, root
 }
 
+type deadlocked struct{ frames []string }
+
 // execute runs the plan once. With record == false nothing is shared between
 // the goroutines except the store (race build: no harness-made happens-before
 // edges between operations).
@@ -295,6 +297,7 @@ func execute(p Plan, record bool) []Rec {
 	var tick atomic.Int64
 	var ready atomic.Int32
 	var commitSeq atomic.Int32
+	var finished atomic.Int32
 	g := len(p.G)
 	recs := make([][]Rec, g)
 	var wg sync.WaitGroup
@@ -308,6 +311,7 @@ func execute(p Plan, record bool) []Rec {
 		wg.Add(1)
 		go func(gi int) {
 			defer wg.Done()
+			defer finished.Add(1)
 			local := append([]kvstore.KVStore{}, views...)
 			var out []Rec
 			ready.Add(1)
@@ -325,10 +329,40 @@ func execute(p Plan, record bool) []Rec {
 			}
 		}(gi)
 	}
-	wg.Wait()
 	if !record {
+		// race build: the runtime dead-lock detector is off there, so the main goroutine
+		// watches structurally (oracle 2): every goroutine parked on a sync primitive in two
+		// consecutive stop-the-world snapshots while the history has not finished = dead-lock.
+		// Spinning/sleeping only paces the snapshots.
+		quiet := 0
+		for spins := 0; int(finished.Load()) < g; spins++ {
+			if spins < 50000 {
+				runtime.Gosched()
+				continue
+			}
+			time.Sleep(200 * time.Microsecond)
+			gs := gdump.Snapshot()
+			if int(finished.Load()) == g {
+				break
+			}
+			if gdump.Quiescent(gs) {
+				quiet++
+			} else {
+				quiet = 0
+			}
+			if quiet >= 2 {
+				var frames []string
+				for _, x := range gs {
+					if x.Has("hive.go/kvstore") && len(frames) < 8 {
+						frames = append(frames, x.State+": "+strings.Join(x.Frames, " < "))
+					}
+				}
+				panic(deadlocked{frames})
+			}
+		}
 		return nil
 	}
+	wg.Wait()
 	var all []Rec
 	for _, r := range recs {
 		all = append(all, r...)
@@ -662,6 +696,8 @@ func toOps(recs []Rec, skip int) []porcupine.Operation {
 
 const checkTimeout = 60 * time.Second
 
+var blamed atomic.Int32
+
 type verdict struct {
 	res  porcupine.CheckResult
 	fp   string
@@ -687,9 +723,13 @@ func checkHistory(recs []Rec) verdict {
 			return verdict{porcupine.Illegal, "spurious-ErrStoreClosed/" + r.Kind, "ErrStoreClosed returned before any Close was invoked: " + describe(r)}
 		}
 	}
-	res, _ := porcupine.CheckOperationsVerbose(newModel(), toOps(recs, -1), checkTimeout)
+	res := porcupine.CheckOperationsTimeout(newModel(), toOps(recs, -1), checkTimeout)
 	if res != porcupine.Illegal {
 		return verdict{res: res}
+	}
+	if blamed.Add(1) > 8 {
+		// enough diagnosed examples in this process; the class name needs the (costly) blame step
+		return verdict{porcupine.Illegal, "", ""}
 	}
 	// blame: a read-type operation whose removal makes the rest linearizable
 	// (removing an observer can never make a legal history illegal).
@@ -869,6 +909,9 @@ func analyze(c *vf.Ctx, a *agg, p Plan, recs []Rec) {
 	a.mu.Unlock()
 	switch v.res {
 	case porcupine.Illegal:
+		if v.fp == "" {
+			break
+		}
 		c.Violation(v.fp, fmt.Sprintf("history %d (%d goroutines, GOMAXPROCS %d): %s", p.Idx, len(p.G), p.Procs, v.what), Replay{Plan: p, History: recs, Text: render(recs)})
 	case porcupine.Unknown:
 		c.Inconclusive(fmt.Sprintf("porcupine timed out on history %d (%d operations)", p.Idx, len(recs)))
@@ -927,7 +970,10 @@ func childRace(c *vf.Ctx, start, count int) {
 		if (idx-start)%64 == 0 {
 			c.Mark(strconv.Itoa(idx))
 		}
-		execute(p, false)
+		if dl := executeGuarded(p); dl != nil {
+			c.Violation("deadlock", fmt.Sprintf("history %d (%d goroutines): every goroutine is parked on a lock in two consecutive snapshots and the history has not finished", idx, len(p.G)), map[string]any{"plan": p, "deadlock": true, "goroutines": dl.frames})
+			break // the parked goroutines cannot be removed; end this child
+		}
 		n++
 		for _, g := range p.G {
 			ops += len(g)
@@ -935,6 +981,20 @@ func childRace(c *vf.Ctx, start, count int) {
 	}
 	c.Count("race_histories", n)
 	c.Count("race_operations", ops)
+}
+
+func executeGuarded(p Plan) (dl *deadlocked) {
+	defer func() {
+		if r := recover(); r != nil {
+			d, ok := r.(deadlocked)
+			if !ok {
+				panic(r)
+			}
+			dl = &d
+		}
+	}()
+	execute(p, false)
+	return nil
 }
 
 func child(c *vf.Ctx) {
@@ -1057,9 +1117,7 @@ func replay(c *vf.Ctx) {
 		// 1. the recorded history is decided again (deterministic)
 		v := checkHistory(rp.History)
 		c.Count("evaluations", len(rp.History))
-		if v.res == porcupine.Illegal {
-			c.Violation(v.fp, "recorded history: "+v.what, Replay{Plan: *rp.Plan, History: rp.History, Text: render(rp.History)})
-		}
+		c.Note(fmt.Sprintf("recorded history (%d operations) decided again by porcupine: %s %s", len(rp.History), v.res, v.fp))
 		// 2. the plan is executed again (the schedule is up to the runtime)
 		if rp.Plan != nil {
 			again := 0
